@@ -92,7 +92,8 @@ class Planner:
         rng = self.rng("edit", i)
         bp = rng.choice(self.dep_heavy) if rng.chance(4, 5) else rng.choice(self.valid)
         e = rng.weighted([(9, "move_a_b"), (3, "move_b_c"), (3, "dep_sig"), (2, "dep_lifecycle"), (2, "dep_body"),
-                          (2, "dep_feature"), (2, "app_sig"), (2, "app_path"), (4, "dep_include"), (3, "app_version"), (5, "app_dep_feature")])
+                          (2, "dep_feature"), (2, "app_sig"), (2, "app_path"), (4, "dep_include"), (3, "app_version"), (5, "app_dep_feature"),
+                          (5, "dep_comment")])
         steps = []
         if rng.chance(1, 2):
             steps.append(_ex(rng, bp, diag=_diag_gen(rng)))
@@ -105,7 +106,7 @@ class Planner:
             steps.append({"op": "edit", "proj": "p0", "edit": e})  # toggle back
             steps.append(_ex(rng, bp))
         elif tail == 2:
-            e2 = rng.choice([x["name"] for x in self.edits if x["name"] != e and x["name"] != "dep_dup_id" and
+            e2 = rng.choice([x["name"] for x in self.edits if x["name"] != e and x["name"] not in ("dep_dup_id", "ws_inline_table") and
                              not (x["kind"] == "move" and e.startswith("move"))])
             steps.append({"op": "edit", "proj": "p0", "edit": e2})
             steps.append(_ex(rng, bp))
@@ -233,6 +234,16 @@ class Planner:
             if bp in self.valid:
                 steps.append(_ex(rng, bp, mode="check"))
         self.add("annot_conflict", rng, steps, self.init_cache(rng))
+
+    def inline_ws(self, i):
+        """the root manifest spells its [workspace] section as one inline table (legal TOML, same content):
+        generate, generate again, --check"""
+        rng = self.rng("inline_ws", i)
+        bp = rng.choice(self.valid)
+        steps = [_ex(rng, bp, diag=_diag_gen(rng)), _ex(rng, bp), _ex(rng, bp, mode="check")]
+        if rng.chance(1, 2):
+            steps.append(_ex(rng, rng.choice(self.invalid)))
+        self.add("inline_ws", rng, steps, "warm", {"p0": ["ws_inline_table"]})
 
     def crlf(self, i):
         """the SDK on disk is up to date except that its source file has CRLF line endings (what an
@@ -452,6 +463,8 @@ class Planner:
                 self.annot_conflict(i)
             for i in range(2 if q else 12):
                 self.crlf(i)
+            for i in range(1 if q else 8):
+                self.inline_ws(i)
             self.ui_mix(24 if q else None, 3, 1 if q else 3, "accept")
             if not q:
                 for rep in range(1, 9):
@@ -501,6 +514,8 @@ class Planner:
                 self.annot_conflict(100 + i)
             for i in range(1 if q else 8):
                 self.symlink_out(100 + i)
+            for i in range(2 if q else 12):
+                self.inline_ws(100 + i)
             self.ui_mix(24 if q else None, 3, 1 if q else 3, "reject")
             if not q:
                 for rep in range(1, 8):
